@@ -163,6 +163,8 @@ JANET_CORE_FN(cfun_io_fopen,
         janet_sandbox_assert(JANET_SANDBOX_FS_READ);
         flags = JANET_FILE_READ;
     }
+    /* Check the argument before the file is open: an error after fopen would leak the FILE and its descriptor. */
+    size_t bufsize = janet_optsize(argv, argc, 2, BUFSIZ);
     FILE *f = fopen((const char *)fname, (const char *)fmode);
     if (f != NULL) {
 #ifndef JANET_WINDOWS
@@ -173,10 +175,10 @@ JANET_CORE_FN(cfun_io_fopen,
             janet_panicf("cannot open directory: %s", fname);
         }
 #endif
-        size_t bufsize = janet_optsize(argv, argc, 2, BUFSIZ);
         if (bufsize != BUFSIZ) {
             int result = setvbuf(f, NULL, bufsize ? _IOFBF : _IONBF, bufsize);
             if (result) {
+                fclose(f);
                 janet_panic("failed to set buffer size for file");
             }
         }
